@@ -202,6 +202,12 @@ func NewValidatorSlashesRequest(method *abi.Method, args []interface{}) (*distri
 		return nil, fmt.Errorf("error while unpacking args to ValidatorSlashesInput struct: %s", err)
 	}
 
+	// an empty key is decoded from the ABI as a non-nil empty slice, which the
+	// paginator rejects together with an offset; treat it as "no key"
+	if len(input.PageRequest.Key) == 0 {
+		input.PageRequest.Key = nil
+	}
+
 	return &distributiontypes.QueryValidatorSlashesRequest{
 		ValidatorAddress: input.ValidatorAddress,
 		StartingHeight:   input.StartingHeight,
